@@ -2,6 +2,7 @@
 //!   vcheck run <ID> [--tier quick|thorough] [--seed N]
 //!   vcheck replay <file>
 mod engine;
+mod memnet;
 mod props;
 
 use engine::{Run, Tier};
